@@ -227,6 +227,8 @@ META = (META[0] + " " + META_EXTRA, META[1])
 
 def run(chk, tier):
     db = D.load("checks")
+    from ..rules import params as _PR
+    _PR.check(chk, db, ['_vector/', '_inplace_vector/', '_stack/'], floor=40)
     cap_rule(chk, db)
     try_rule(chk, db)
     own_rule(chk, db)
